@@ -69,13 +69,13 @@ def header_and_open_io(ctx, fi, rng, model=None):
 def run(ctx):
     model = core.Model()
     rng = gen.rng_for(ctx.seed, 'c07')
-    n_files = 50 if ctx.quick else 1200
+    n_files = ctx.n(50, 1200)
     try:
-        for k, fi in enumerate(files.read_files(ctx, rng, n_files, max_voxels=40_000 if ctx.quick else 150_000)):
+        for k, fi in enumerate(files.read_files(ctx, rng, n_files, max_voxels=ctx.n(40_000, 150_000))):
             for blob in ((False, True) if k % 3 == 0 else (False,)):
                 s = readcheck.ReadSession(fi, blob=blob)
                 try:
-                    ops = readcheck.in_range_ops(rng, fi, 2 if ctx.quick else 4)
+                    ops = readcheck.in_range_ops(rng, fi, ctx.n(2, 4))
                     ops = [o for o in ops if o[0] not in ('vol',)] + ([('vol',)] if not fi.is2d else [])
                     readcheck.check_ops(ctx, model, s, ops, props=('C07',), cold=True, tag='blob' if blob else 'file')
                     # warm: the same ops again without clearing caches may only read less
@@ -85,7 +85,7 @@ def run(ctx):
             if k % 4 == 0:
                 header_and_open_io(ctx, fi, rng, model)
         # legacy files with ONE header block (format 0.0.x: no SEG-Y file-header block): open and reads, both backends
-        for k in range(6 if ctx.quick else 60):
+        for k in range(ctx.n(6, 60)):
             n, bs, q = gen.geometry_3d(rng, klass='default', max_voxels=20_000)
             fi = synth.make(ctx.path('legacy.sgz'), n, bs, q, rng, version=0, n_arrays=0, n_header_blocks=1)
             ctx.stats['legacy_one_header_block'] += 1
